@@ -3,6 +3,7 @@ package rules
 import (
 	"fmt"
 	"go/token"
+	"go/types"
 	"sort"
 	"strings"
 
@@ -17,7 +18,7 @@ func checkC17(c *an.Ctx) {
 	c.Rule("C17.1", "guard dominates recursion (E3): every call from load/loadDir to load/loadDir is dominated by the false outcome of imports[k] on the very key passed on; load marks imports[file] before it reads the file or recurses; the imports set is replaced only by reset, at the start of Load")
 	c.Rule("C17.2", "errors propagate (E7): every error-returning call in load, loadDir, readFile, readURL, unmarshalData, decode, Load, LoadGlobalConfig is propagated or wrapped (exempt, with reasons: mime.ParseMediaType, url.Parse, mapstructure.NewDecoder)")
 	c.Rule("C17.3", "path provenance (E5): a file import is loaded from path.Join(path.Dir(<importing file>), <entry>); a directory import from the elements of filepath.Glob(filepath.Join(dir, \"*.yaml\"))")
-	c.Rule("C17.4", "nothing loaded is discarded (E3): after a recursive load succeeded, the returned map is merged (mergo.Merge into the importer's map, error propagated) before the loop goes on")
+	c.Rule("C17.4", "nothing loaded is discarded (E3): after a recursive load succeeded, the returned map is merged (mergo.Merge into the importer's map, error propagated) before the loop goes on; the list the import loop ranges over is not shared with the Loader (neither taken from one of its fields nor kept in one): the loop body re-enters load through the same Loader")
 	c.Rule("C17.5", "global + project (E3/E5): Load loads the global configuration first, both are merged into Loader.dst, and variables are merged explicitly (= C10.2)")
 	c.NotDecided = append(c.NotDecided, "what mergo does with conflicting keys", "remote imports (no network is touched)", "'each taken once' beyond the guard (merging a map with itself is library behaviour)")
 	p := c.P
@@ -445,6 +446,7 @@ func checkC17(c *an.Ctx) {
 		return nil, false
 	}
 	mergeDst := map[*ssa.Function][]ssa.Value{}
+	listDone := map[*ssa.BasicBlock]bool{}
 	for _, fn := range []*ssa.Function{ld, ldir} {
 		fn := fn
 		for _, callee := range []*ssa.Function{ld, ldir} {
@@ -460,6 +462,39 @@ func checkC17(c *an.Ctx) {
 				if loop == nil {
 					c.Und("C17.4", an.Short(fn)+":merge("+an.Short(callee)+")", call.Pos(), "the recursive load is not inside the import loop")
 					continue
+				}
+				// the list the loop goes over belongs to this activation: the loop body re-enters load, so a list
+				// whose storage hangs off the Loader (a reused scratch buffer) is rewritten by the nested file's
+				// imports while the importer is still half way through its own
+				if rng := loop.RangeOperand(); rng != nil && !listDone[loop.Header] {
+					listDone[loop.Header] = true
+					shared := ""
+					srcs := map[ssa.Value]bool{}
+					for _, src := range p.DeepSources(rng, 3, false) {
+						srcs[src] = true
+						if fp := an.FieldProv(src); strings.HasPrefix(fp, "Loader.") {
+							shared = "comes from " + fp
+						}
+					}
+					an.EachInstr(fn, func(in ssa.Instruction) {
+						st, ok := in.(*ssa.Store)
+						if !ok {
+							return
+						}
+						fa, ok := st.Addr.(*ssa.FieldAddr)
+						if !ok || !strings.HasPrefix(an.TypeField(fa), "Loader.") {
+							return
+						}
+						if _, isSlice := st.Val.Type().Underlying().(*types.Slice); !isSlice {
+							return
+						}
+						for _, s2 := range p.DeepSources(st.Val, 3, false) {
+							if srcs[s2] {
+								shared = "is kept in " + an.TypeField(fa)
+							}
+						}
+					})
+					c.Check(shared == "", "C17.4", an.Short(fn)+":import-list-private", loop.Header.Instrs[0].Pos(), "the list the import loop goes over is not shared with the Loader", "the list the import loop goes over "+shared+": the loop body loads nested files through the same Loader, which rewrite the list while it is being iterated — imports of the importing file are skipped or replaced by the nested file's")
 				}
 				res := extractOf(call, 0)
 				ex := &an.Explorer{P: p, NoReturn: noReturn, MaxDepth: 2,
